@@ -159,9 +159,17 @@ def check_c09(idx: Index, tier: str, res: Result) -> None:
     ok = kw.get("start") == "step" and kw.get("until") == "step" and kw.get("equations") == "equations"
     res.check("STEP", "a step simulates exactly [step, step] for the session's equations", ok, rss.loc(starts[0]) if starts else rss.loc(), rss.qual,
               src(starts[0])[:110] if starts else "", "the step simulates [%s, %s]" % (kw.get("start"), kw.get("until")), key="STEP/run_scenario_step/range")
-    keep = [g for g in walk_no_nested(rss.node) if isinstance(g, ast.If) and src(g.test).replace(" ", "") in ("sc.sd_simulationisNone",)]
-    creates = [n for n in walk_no_nested(rss.node) if isinstance(n, ast.Assign) and dotted(n.targets[0]) == "sc.sd_simulation"]
-    ok = len(keep) == 1 and all(any(x is c for b in keep[0].body for x in ast.walk(b)) for c in creates)
+    # every creation of a live simulation happens only where none is live yet: nested under `<scenario>.sd_simulation is None`
+    # (the if's body, or the else of `is not None`)
+    from ..util import under_condition
+    creates = [n for n in walk_no_nested(rss.node) if isinstance(n, ast.Assign) and (dotted(n.targets[0]) or "").endswith(".sd_simulation")]
+
+    def none_live(owner):
+        def pred(a_, t_):
+            return t_ and isinstance(a_, ast.Compare) and len(a_.ops) == 1 and isinstance(a_.ops[0], ast.Is) and dotted(a_.left) == owner + ".sd_simulation" \
+                and isinstance(a_.comparators[0], ast.Constant) and a_.comparators[0].value is None
+        return pred
+    ok = bool(creates) and all(under_condition(rss.node, c, none_live((dotted(c.targets[0]) or "").rsplit(".", 1)[0])) for c in creates)
     res.check("STEP", "the live simulation is kept between steps", ok, rss.loc(), rss.qual, "if sc.sd_simulation is None: ...",
               "a new SdSimulation is built on every step: the memoised history and the settings applied by earlier steps are lost",
               key="STEP/run_scenario_step/keep-simulation")
@@ -216,11 +224,39 @@ def check_c09(idx: Index, tier: str, res: Result) -> None:
     if len(vals) < 3:
         raise AnalysisError("__generate_df: expected three result stores (df/dict/json), found %d" % len(vals))
     SERIES = "scenarios[scenario].result[equation]"
+    # by role: <an element of the scenarios handed in>.result[<the equation the loop is at>]
+    gparams = params(gen.node)
+    scen_p, eq_p = (gparams[3], gparams[4]) if len(gparams) >= 5 else ("scenarios", "equations")
+    key_vars, elem_vars, eq_vars = set(), set(), set()
+    for lp_ in [x for x in ast.walk(gexp) if isinstance(x, (ast.For, ast.comprehension))]:
+        it_ = lp_.iter
+        meth = call_name(it_) if isinstance(it_, ast.Call) and isinstance(it_.func, ast.Attribute) else None
+        root = it_.func.value if meth in ("keys", "values", "items") else it_
+        if isinstance(root, ast.Name) and root.id == scen_p:
+            if meth == "values" and isinstance(lp_.target, ast.Name):
+                elem_vars.add(lp_.target.id)
+            elif meth == "items" and isinstance(lp_.target, ast.Tuple) and len(lp_.target.elts) == 2:
+                key_vars.add(src(lp_.target.elts[0]))
+                elem_vars.add(src(lp_.target.elts[1]))
+            elif isinstance(lp_.target, ast.Name):
+                key_vars.add(lp_.target.id)
+        if isinstance(root, ast.Name) and root.id == eq_p and isinstance(lp_.target, ast.Name):
+            eq_vars.add(lp_.target.id)
+
+    def is_series(e) -> bool:
+        if not (isinstance(e, ast.Subscript) and isinstance(e.slice, ast.Name) and e.slice.id in eq_vars):
+            return False
+        o = e.value
+        if not (isinstance(o, ast.Attribute) and o.attr == "result"):
+            return False
+        o = o.value
+        return (isinstance(o, ast.Name) and o.id in elem_vars) or (
+            isinstance(o, ast.Subscript) and isinstance(o.value, ast.Name) and o.value.id == scen_p and src(o.slice) in key_vars)
     for n, v, fmt in vals:
         base = v
         if isinstance(base, ast.Call) and call_name(base) == "to_dict" and not base.args:
             base = base.func.value
-        ok = src(base) == SERIES
+        ok = is_series(base)
         res.check("SERIES", "%s result comes from the scenario frame's column" % fmt, ok, gen.loc(n), gen.qual, src(v)[:80],
                   "the %s result is filled from %s instead of the scenario frame's column %s: the formats disagree" % (fmt, src(v)[:60], SERIES),
                   key="SERIES/__generate_df/%s/%s" % (fmt, src(v)[:40]))
